@@ -430,6 +430,21 @@ theorem querySi_spec (s : Si) (q : SiOp) (hq : q.isQuery = true) (h : InvSi s) :
   | clearHeralds => simp [SiOp.isQuery] at hq
   | setOther o => simp [SiOp.isQuery] at hq
 
+/-- `probability` / `prob_amplitude` of a Fock state leave the configuration alone -/
+theorem direct_config (s : Si) (sts : List Nat) : (stepSi true s (.direct sts)).1.config = s.config := by
+  simp only [stepSi]
+  split <;> rfl
+
+/-- `prob_amplitude(StateVector, ·)`: one `prob_amplitude(BasicState, ·)` per term, in sequence — every one of them
+has the closed form of the configuration -/
+theorem directs_run (s : Si) (h : InvSi s) (terms : List (List Nat)) :
+    (run (stepSi true) s (terms.map SiOp.direct)).2 = terms.map (fun sts => specSiQ s.config (.direct sts)) := by
+  induction terms generalizing s with
+  | nil => rfl
+  | cons t ts ih =>
+    simp only [List.map_cons, run]
+    rw [ih _ (invSi_step s _ h), direct_config, querySi_spec s (.direct t) rfl h]
+
 theorem configSi_canon (cfg : SiCfg) : (exec (stepSi true) initSi (canonSi cfg)).config = cfg := by
   obtain ⟨c, a, n, o⟩ := cfg
   cases c <;> simp [canonSi, exec, run, stepSi, initSi, Si.config]
